@@ -474,12 +474,16 @@ impl<'a> Gen<'a> {
                     let n = if !present {
                         0
                     } else {
-                        match rng.below(6) {
-                            0 | 1 => 1,
-                            2 => 2,
-                            3 => 3,
-                            4 => 1 + rng.below(8) as usize,
-                            _ => 1 + rng.below(3) as usize,
+                        match rng.below(48) {
+                            // many elements: around the first count that no longer fits a byte
+                            0 => *rng.pick(&[255usize, 256, 257, 300]),
+                            x => match x % 6 {
+                                0 | 1 => 1,
+                                2 => 2,
+                                3 => 3,
+                                4 => 1 + rng.below(8) as usize,
+                                _ => 1 + rng.below(3) as usize,
+                            },
                         }
                     };
                     Val::List((0..n).map(|_| scalar(rng)).collect())
